@@ -27,7 +27,9 @@ import (
 	"os"
 	"path"
 	"path/filepath"
+	"strconv"
 	"sync"
+	"sync/atomic"
 
 	"github.com/opencontainers/go-digest"
 	specs "github.com/opencontainers/image-spec/specs-go"
@@ -468,8 +470,26 @@ func (s *Store) writeIndexFile() error {
 	if err != nil {
 		return fmt.Errorf("failed to marshal index file: %w", err)
 	}
-	return os.WriteFile(s.indexPath, indexJSON, 0666)
+	// write to a temporary file in the same directory and rename it into
+	// place, so that a crash never leaves a truncated index.json behind
+	tmpPath := s.indexPath + ".tmp." + strconv.Itoa(os.Getpid()) + "." + strconv.FormatUint(atomic.AddUint64(&indexTempSeq, 1), 10)
+	if err := os.WriteFile(tmpPath, indexJSON, 0666); err != nil {
+		os.Remove(tmpPath)
+		return err
+	}
+	if info, err := os.Stat(s.indexPath); err == nil {
+		// keep the permission bits of the file being replaced
+		os.Chmod(tmpPath, info.Mode().Perm())
+	}
+	if err := os.Rename(tmpPath, s.indexPath); err != nil {
+		os.Remove(tmpPath)
+		return err
+	}
+	return nil
 }
+
+// indexTempSeq makes the temporary index file names of one process unique.
+var indexTempSeq uint64
 
 // GC removes garbage from Store. Unsaved index will be lost. To prevent unexpected
 // loss, call SaveIndex() before GC or set AutoSaveIndex to true.
